@@ -25,7 +25,7 @@ def pick(line_key, seed, keep_frac):
 ENDPOINT_CONFORM = dict(module="EndpointConform", tok2rec=groups.inb_tok2rec, tail=1, project=groups.inb_project)
 
 
-def run_batch(g, tier, name, runs, out, acc, cfg_text=None, decode=None, module=None):
+def run_batch(g, tier, name, runs, out, acc, cfg_text=None, decode=None, module=None, conform_fn=None):
     """replay one batch of runs on the real code and judge it; only verdicts are kept"""
     if not runs:
         return
@@ -40,7 +40,16 @@ def run_batch(g, tier, name, runs, out, acc, cfg_text=None, decode=None, module=
     acc["runs"] += verdict["runs"]
     acc["events"] += verdict["events"]
     cspec = ENDPOINT_CONFORM if module == "MC_Endpoint" else g.get("conform")
-    if cspec and cfg_text:
+    if conform_fn:
+        t1 = time.time()
+        c = conform_fn(runs, tp, f"{g['name']}_{tier}_{name}")
+        out["wall"]["conform"] = round(out["wall"].get("conform", 0) + time.time() - t1, 2)
+        cf = acc.setdefault("conform", dict(runs=0, ok=0, steps=0, drift=0, drift_samples=[]))
+        cf["runs"] += c["runs"]; cf["ok"] += c["ok"]; cf["steps"] += c["steps"]; cf["drift"] += c.get("nstuck", 0)
+        for x in c["stuck"]:
+            if len(cf["drift_samples"]) < 12:
+                cf["drift_samples"].append(dict(x, cfg=name))
+    elif cspec and cfg_text:
         # impl -> spec at event level: TLC steps the implementation-shaped model along every recorded run
         t1 = time.time()
         c = vlib.conform(dict(cspec, decode=decode), cfg_text, runs, tp, f"{g['name']}_{tier}_{name}")
@@ -102,7 +111,8 @@ def run_model_group(g, tier, seed):
     quota = g.get("quota", 350) if tier == "quick" else g.get("quota_thorough", 12000)
     for cfgt in g["configs"](tier):
         name, cfg_text, module, decode, variants = cfgt[:5]
-        cquota = cfgt[5] if len(cfgt) > 5 else quota     # a configuration may ask to be replayed in full
+        cquota = cfgt[5] if len(cfgt) > 5 and cfgt[5] else quota     # a configuration may ask to be replayed in full
+        conform_fn = cfgt[6] if len(cfgt) > 6 else None
         r = vlib.tlc(module, cfg_text, f"{g['name']}_{name}", workers=8 if tier == "quick" else 14, timeout=3000)
         if r.get("error"):
             out.setdefault("model_invariant_failures", []).append(dict(cfg=name, error=r["error"]))
@@ -180,7 +190,7 @@ def run_model_group(g, tier, seed):
                 kept += 1
         out["tlc"].append(dict(cfg=name, generated=r["generated"], distinct=r["distinct"], wall=r["wall"],
                                cached=r["cached"], transitions=total, replayed=kept, model_bad_lines=nbad))
-        run_batch(g, tier, name, runs, out, acc, cfg_text, decode, module)
+        run_batch(g, tier, name, runs, out, acc, cfg_text, decode, module, conform_fn)
     rnd = random.Random(seed)
     extra = g.get("extra_runs", lambda tier, rnd: [])(tier, rnd)
     for e in extra:
